@@ -5,6 +5,7 @@ import SquidModel.Properties.C37
 #print axioms SquidModel.C37.name_unpack_encodes_partial
 #print axioms SquidModel.C37.record_unpack_encodes_partial
 #print axioms SquidModel.C37.unpack_encodes_partial
+#print axioms SquidModel.C37.decoded_text_determines_labels
 #print axioms SquidModel.C37.encoding_ignores_trailing_octets
 #print axioms SquidModel.C37.header_roundtrip
 #print axioms SquidModel.C37.query_roundtrip
